@@ -8,6 +8,7 @@
 package c19_test
 
 import (
+	"bytes"
 	"crypto"
 	"encoding/base64"
 	"fmt"
@@ -54,6 +55,17 @@ type signed struct {
 	hdr map[string]string
 }
 
+// is reports whether a returned assertion is exactly this one (same object,
+// or same signed content and signature) without re-encoding it.
+func (s *signed) is(a asserts.Assertion) bool {
+	if a == s.a {
+		return true
+	}
+	c1, s1 := a.Signature()
+	c2, s2 := s.a.Signature()
+	return bytes.Equal(c1, c2) && bytes.Equal(s1, s2)
+}
+
 const (
 	maxFmtValidationSet = 2 // raised from 0 through asserts.MockMaxSupportedFormat
 	maxFmtSnapDecl      = 6 // native
@@ -69,6 +81,7 @@ type universe struct {
 	trusted    []*signed
 	predefined []*signed
 	prereqs    []*signed // added to every database before a history starts
+	fixtures   []*signed // trusted + predefined + prereqs
 
 	snapIDs    []string
 	vsAccounts []string
@@ -193,6 +206,7 @@ func newUniverse() *universe {
 		u.get(desc{Type: "account", PK: []string{"dev1"}}),
 		u.get(desc{Type: "snap-declaration", PK: []string{series, revBaseSnapID}}),
 	}
+	u.fixtures = append(append(append([]*signed{}, u.trusted...), u.predefined...), u.prereqs...)
 	return u
 }
 
